@@ -147,6 +147,34 @@ CHECKS = {
         assumptions=["NATS broker with the default 1 MiB max payload"],
         design_ref="DESIGN.md §2 C12",
     ),
+    "C09": dict(
+        title="The request context travels with the call and back",
+        legs=[leg("TestC09Context", quick=(500, 4), thorough=(10000, 16), timeout_s=3000, prefixes=["c09."])],
+        level="exploration",
+        technique="property-based testing (rapid): generated header maps / correlation ids / timeouts sent through every transport and protocol, observed in the handler, on the caller and in the teed reply frame (reference decoder)",
+        rule=("User request headers (0..6, names not starting with '_', arbitrary bytes incl. empty and multi-byte), handler-set response headers (0..5), correlation id given or generated, "
+              "timeout 1..3 600 000 ms (>=3 s on real transports), 1..4 sequential calls; RPC over in-memory loop, TCP adapter+simple server, HTTP, NATS with handler outcome ok / declared exception / undeclared error; "
+              "pub/sub over NATS and STOMP; binary/compact/JSON. Non-trivial: >=1 user header and (>=1 response header or pub/sub), or a non-default timeout. Distinct: sha256 of the case."),
+        level_text=("Exploration: the handler / subscriber callback must observe exactly the user headers, the correlation id and the timeout; its context must carry a fresh op id (different from the caller's and from every "
+                    "other op id seen in the process); the caller must see every response header the handler set and keep its own op id; the reply frame teed at the transport, decoded by the reference decoder, must carry the request's _opid and _cid."),
+        level_note="Trusted: the fixture client/processor mirroring generated code (the generated-code leg is covered by C03), reference header decoder, in-process brokers.",
+        assumptions=["handler-set response header names do not start with '_' (reserved)"],
+        design_ref="DESIGN.md §2 C09",
+    ),
+    "C14": dict(
+        title="The server answers every two-way request exactly once with a well-formed reply",
+        legs=[leg("TestC14Replies", quick=(250, 4), thorough=(4000, 16), timeout_s=3000, prefixes=["c14."])],
+        level="exploration",
+        technique="property-based testing (rapid): generated request sequences of every kind sent by a raw client over the simple/HTTP/NATS servers and in memory, replies parsed by an independent decoder and matched to requests",
+        rule=("Sequences of 1..30 requests of kinds ok / declared exception / undeclared error / TApplicationException(42) / unknown method / missing required argument / wrong wire type / oneway / truncated arguments, "
+              "spread over 1..4 connections (simple server, sequential per connection, connections concurrent), 1..4 concurrent HTTP senders, 1..4 NATS publishers x 1..4 workers, or direct Process; binary/compact/JSON. "
+              "Non-trivial: a success after a non-success on the same connection, or >=2 concurrent connections/workers. Distinct: sha256 of the case."),
+        level_text=("Exploration: exactly one reply per two-way request (matched by _opid and reply subject / position), none for a successful oneway, nothing unsolicited; the reply is a self-contained frame whose "
+                    "headers and Thrift message parse completely with nothing trailing; message type and exception type are the ones the request kind calls for; the handler runs exactly once for well-formed known calls and never otherwise."),
+        level_note="Trusted: reference header decoder and Thrift's protocol readers for parsing replies; the fixture processor mirrors generated code (generated processors are exercised in C03).",
+        assumptions=["after truncated arguments nothing is asserted about the same simple-server connection (stream desynchronisation is outside the stated clause)"],
+        design_ref="DESIGN.md §2 C14",
+    ),
 }
 
 NOT_APPLICABLE = [
